@@ -44,8 +44,8 @@ MUTANTS = [
      '  sorted_indices = tf.argsort(inputs, direction="ASCENDING")', 'H4', 'argsort / sort direction mismatch'),
     ('C02', 'lattice_lib.py', '                                          np.array(lattice_sizes) - 2)',
      '                                          np.array(lattice_sizes) - 1)', 'H4', 'lower corner may be the last vertex'),
-    ('C02', 'lattice_lib.py', '      np.cumprod([1] + lattice_sizes[::-1][:-1])[::-1], tf.int32)',
-     '      np.cumprod([1] + lattice_sizes[:-1])[::-1], tf.int32)', 'H4', 'strides from un-reversed sizes'),
+    ('C02', 'lattice_lib.py', '      np.cumprod([1] + list(lattice_sizes)[::-1][:-1])[::-1], tf.int32)',
+     '      np.cumprod([1] + list(lattice_sizes)[:-1])[::-1], tf.int32)', 'H4', 'strides from un-reversed sizes'),
     ('C02', 'lattice_lib.py', '    upper_bounds = [dim_size - 1.0 for dim_size in lattice_sizes]',
      '    upper_bounds = [dim_size - 2.0 for dim_size in lattice_sizes]', 'H1', 'clip range one cell short'),
     ('C02', 'lattice_lib.py', '    w = tf.stack([(1.0 - inputs), inputs], axis=-1)', '    w = tf.stack([inputs, (1.0 - inputs)], axis=-1)', 'H2',
@@ -214,6 +214,12 @@ MUTANTS = [
      '    finalize_scale = self.scale.assign_add(\n        self._final_scale_constraints(self.scale) - self.scale)', 'R1', 'scale stored through a cancelling difference'),
     ('C07', 'kronecker_factored_lattice_layer.py', '    finalize_kernel = self.kernel.assign(\n        self._final_kernel_constraints(self.kernel))',
      '    finalize_kernel = self.kernel.assign(self._final_kernel_constraints(\n        self.kernel))', None, 'N: re-wrapped assign'),
+    ('C13', 'lattice_lib.py', '      l1 = list(l1) + [0.0]\n    if l2:\n      l2 = list(l2) + [0.0]\n  weights = tf.reshape(weights, shape=lattice_sizes)\n\n  result = tf.constant(0.0, shape=[], dtype=weights.dtype)\n  for dim in range(rank):',
+     '      l1 = l1 + [0.0]\n    if l2:\n      l2 = list(l2) + [0.0]\n  weights = tf.reshape(weights, shape=lattice_sizes)\n\n  result = tf.constant(0.0, shape=[], dtype=weights.dtype)\n  for dim in range(rank):', 'T3', 'tuple l1 extended with a list'),
+    ('C02', 'lattice_lib.py', 'np.cumprod([1] + list(lattice_sizes)[::-1][:-1])[::-1], tf.int32)', 'np.cumprod([1] + lattice_sizes[::-1][:-1])[::-1], tf.int32)', 'T3', 'tuple sizes in the stride computation'),
+    ('C01', 'lattice_lib.py', '  units = weights.shape[1]\n  if units > 1:\n    lattice_sizes = list(lattice_sizes) + [int(units)]\n    if monotonicities:',
+     '  units = weights.shape[1]\n  lattice_sizes = list(lattice_sizes)\n  if units > 1:\n    lattice_sizes = lattice_sizes + [int(units)]\n    if monotonicities:', None, 'N: list() one statement earlier'),
+    ('C12', 'lattice_lib.py', '    lattice_sizes = list(lattice_sizes) + [int(weights.shape[1])]\n    if monotonicities:', '    lattice_sizes = lattice_sizes + [int(weights.shape[1])]\n    if monotonicities:', 'T3', 'assert_constraints with tuple sizes'),
     ('C17', 'premade_lib.py', '        # going out of bound on the lattice\n        addition_score = -2.0',
      '        # going out of bound on the lattice\n        addition_score = -1.0', 'W7', 'full lattice ties with a repeat'),
     ('C17', 'premade_lib.py', '        # going out of bound on the lattice\n        addition_score = -2.0',
